@@ -16,6 +16,28 @@ fn main() {
         Some("replay") => engine::replay_main(&reg, &args[2]),
         Some("choices") => engine::choices_main(&reg, &args[2..]),
         Some("describe") => engine::describe_main(&reg, &args[2..]),
+        Some("corpus") => lsverif::fuzz::corpus_main(&reg, &args[2..]),
+        Some("fuzzspaces") => {
+            // indices of the randomly searched spaces of a property (the ones worth fuzzing)
+            if let Some(p) = reg.get(&args[2]) {
+                for (i, sp) in p.spaces.iter().enumerate() {
+                    if matches!((sp.plan)(Tier::Thorough), lsverif::core::Plan::Random(_)) {
+                        println!("{} {}", i, sp.name);
+                    }
+                }
+            }
+            0
+        }
+        Some("bytes2choices") => {
+            let p = reg.get(&args[2]).expect("prop");
+            let si: usize = args[3].parse().unwrap();
+            let data = std::fs::read(&args[4]).unwrap_or_default();
+            let mut src = lsverif::source::Source::bytes(&data);
+            let _ = (p.spaces[si].decode)(&mut src);
+            println!("{}", src.rec.iter().map(|v| v.to_string()).collect::<Vec<_>>().join(" "));
+            0
+        }
+        Some("shrinkfile") => engine::shrinkfile_main(&reg, &args[2..]),
         Some("list") => {
             for p in &reg.props {
                 println!("{} {}", p.id, p.title);
